@@ -64,6 +64,18 @@ def rule_wunary(roles):
             os_ = list(trace_operand(b, os_[0].data.args[0], through_calls=set(TRANSPARENT_CALLS)))
         # the operand may be the primary just parsed, or that primary wrapped by tighter-binding forms built right here
         # (`xs -> 0 -> 1 ++`: an access node around the primary); every alternative must be primary-level
+        if len(os_) == 1 and os_[0].kind == 'param' and not os_[0].proj and not b.is_closure:
+            # `fn parse_postfix(&mut self, operand: ExprAST)`: the operand is what every caller hands in
+            oid = getattr(b, 'orig_id', b.id)
+            sites = [c for cid in prog.callers.get(oid, ()) for c in prog.edge_sites.get((cid, oid), [])]
+            handed = []
+            for c in sites:
+                if os_[0].data - 1 < len(c.args):
+                    handed += list(trace_operand(c.body, c.args[os_[0].data - 1], through_calls=set(TRANSPARENT_CALLS)))
+                else:
+                    handed.append(os_[0])
+            if sites and all(x.kind == 'callres' and x.data.ruid in pids for x in handed):
+                os_ = handed
         prim = [x for x in os_ if x.kind == 'callres' and x.data.ruid in pids and not x.proj[2:]]
         wraps = [x for x in os_ if x.kind == 'agg' and x.data[2].get('adt') == AST and x.data[2].get('variant') not in ('Binary', 'Ternary', 'Unary', 'Stmt')]
         o = prim[0] if prim and len(prim) + len(wraps) == len(os_) and len({x.data.ruid for x in prim}) == 1 else None
@@ -150,29 +162,161 @@ def rule_wtern(roles):
             continue
         # a comparison / test reading parameter k whose edge dominates the Ternary construction
         good = False
+        any_gate = False
         for sb in sorted(b.live_blocks):
             t = b.blocks[sb]['term']
             if t['k'] != 'switch':
                 continue
             cmpi = _cmp_of_switch(b, sb)
             reads = False
+            builds_at = None       # predicate on the minimum precedence: is the conditional built on the dominating edge?
+            dom = [x for v, x in switch_edges(b, sb) if edge_dominates(b, sb, x, bb)]
             if cmpi:
+                sides = []
                 for side in (cmpi[1], cmpi[2]):
                     o = single_origin(trace_operand(b, side))
                     if o is not None and o.kind == 'param' and o.data == k:
                         reads = True
+                        sides.append('p')
+                    else:
+                        c = op_const_int(side)
+                        if c is None and o is not None and o.kind == 'const' and not o.proj and isinstance(o.data, dict):
+                            c = o.data.get('int')
+                        sides.append(c)
+                if reads and dom and sides.count('p') == 1 and None not in sides and dom[0] in cmpi[3]:
+                    truth = cmpi[3][dom[0]]
+                    f = {'Lt': lambda x, y: x < y, 'Le': lambda x, y: x <= y, 'Gt': lambda x, y: x > y, 'Ge': lambda x, y: x >= y}[cmpi[0]]
+                    builds_at = lambda v, f=f, sides=sides, truth=truth: int(f(*(v if z == 'p' else z for z in sides))) == truth
             else:
                 o = single_origin(trace_operand(b, t['discr']))
                 if o is not None and o.kind == 'param' and o.data == k:
                     reads = True
-            if reads and any(edge_dominates(b, sb, x, bb) for v, x in switch_edges(b, sb)):
-                # the other edge must leave without building the conditional
-                good = True
+                    if dom:
+                        vals = [v for v, x in t['targets'] if x == dom[0]]
+                        if dom[0] != t['otherwise'] and vals:
+                            builds_at = lambda v, vals=vals: v in vals
+            if reads and dom:
+                any_gate = True
+                # the conditional is looser than *every* infix operator: it is built at the outermost level (minimum 0)
+                # and never below an operator, whatever positive right binding power that operator recursed with
+                if builds_at is not None and builds_at(0) and not any(builds_at(v) for v in (1, 2, 3, 39, 41, 10 ** 9, 2 * 10 ** 9 + 1)):
+                    good = True
+        if not good and any_gate:
+            obs.append(bad('WTERN', key, 'the conditional is built behind a test of the minimum precedence that does not confine it to the outermost level (minimum 0): it is compared like an operator with a level of its own, so an operator recursing with a lower right binding power (an assignment) takes the conditional into its right operand: `a = b + 1 ? 4 : 2` groups as a = ((b + 1) ? 4 : 2)', b.where(bb), body=b.name, bb=bb))
+            continue
         if good:
             obs.append(ok('WTERN', key, 'the conditional is built only on an edge of a test of the minimum precedence (parameter %d): an operand of a tighter operator leaves `?` to the outermost level' % k, b.where(bb)))
         else:
             obs.append(bad('WTERN', key, 'the infix loop builds the conditional regardless of the minimum precedence it was entered with: `5 < 2+3 ? 4 : 2` groups as 5 < ((2+3) ? 4 : 2)', b.where(bb), body=b.name, bb=bb))
     return obs
+
+
+def _not_tests(prog):
+    """bool predicates that (transitively) compare a string with the constant "not": ids -> True if the body *is* a
+    pure not-test (its only string comparison is with "not" and it consults no registry)"""
+    from facts import op_const_str
+    direct = set()
+    for g in prog.bodies:
+        for c in g.live_calls:
+            if (c.callee or '') in ('std::cmp::PartialEq::eq', 'std::cmp::PartialEq::ne') and len(c.args) == 2:
+                for a in c.args:
+                    sv = op_const_str(a)
+                    if sv is None:
+                        o = single_origin(trace_operand(g, a, through_calls=set()))
+                        sv = op_const_str(o.data) if o is not None and o.kind == 'const' and isinstance(o.data, dict) else None
+                    if sv == 'not':
+                        direct.add(g.id)
+    out = {}
+    for g in prog.bodies:
+        if g.locals[0]['ty'] != 'bool':
+            continue
+        r = prog.reach([g.id])
+        if r & direct:
+            out[g.id] = not _reaches_registry(prog, g.id)
+    return out
+
+
+def rule_wnot_lookup(roles):
+    """`x not OP y`: OP keeps its own precedence, so the binding power looked up for a `not` at the cursor must be the
+    one of the operator *after* it.  The generic "binding power of the current token" lookup answers "not an infix
+    operator" for `not`; a call of it must therefore not sit behind a guard that lets `not` through (a predicate that
+    itself tests for `not` and consults the registry) unless the false edge of a pure not-test also dominates it."""
+    prog = roles.prog
+    obs = []
+    nt = _not_tests(prog)
+    if not any(nt.values()):
+        return [assumed('WNOT-L', 'WNOT-L|none', 'no pure test for the `not` keyword found: not decided')]
+    pf = set(pair_functions(prog))
+    pids = {p.id for p in roles.parse_bodies}
+    n = 0
+    pb_ids = {getattr(p, 'orig_id', p.id) for p in roles.parse_bodies}
+    helpers = [prog.by_id[i] for i in sorted(roles.reach) if i in prog.by_id and i not in pb_ids and not prog.by_id[i].is_closure]
+    for b in list(roles.parse_bodies) + helpers:
+        for c in b.live_calls:
+            g = prog.by_id.get(c.ruid) if c.ruid else None
+            # the lookup for the token at the cursor: a parser method without a key argument that returns a pair and does not look ahead
+            if g is None or g.id not in pf or len(c.args) != 1 or g.arg_count != 1:
+                continue
+            strip = lambda ty: re.sub(r"^&('\w+ )?(mut )?", '', ty)
+            if b.arg_count < 1 or strip(g.locals[1]['ty']) != strip(b.locals[1]['ty']):
+                continue
+            if roles.token_next is not None and roles.token_next.id in prog.reach([g.id]):
+                continue        # looks ahead (`negated_op_precidence` peeks at the token after `not`): not the lookup for the cursor
+            n += 1
+            key = 'WNOT-L|%s|bb-ord%d' % (b.name, len([o for o in obs if o.key.startswith('WNOT-L|%s|' % b.name)]))
+            excluded = False
+            lets_through = None
+            for sb, kind, detail in gates_of(b, c.bb):
+                if kind != 'pred' or detail.ruid is None or detail.ruid not in nt:
+                    continue
+                src = bool_source_truth(b, sb, c.bb)
+                if src is None:
+                    continue
+                if nt[detail.ruid] and src == 0:
+                    # ... about the token that is still at the cursor at the lookup: no advance between the test and the site
+                    tf = r_parse.TokenFacts(roles, b)
+                    t_ = b.blocks[sb]['term']
+                    tgt = [x for v, x in switch_edges(b, sb) if edge_dominates(b, sb, x, c.bb)]
+                    stale = False
+                    for x in tgt:
+                        fwd = b.reachable_from(x, avoid={sb})
+                        for kb in tf.kill:
+                            if kb in fwd and kb != c.bb and any(c.bb in b.reachable_from(y, avoid={sb}) for y in b.succ[kb]):
+                                stale = True
+                    if not stale:
+                        excluded = True
+                elif not nt[detail.ruid] and src == 1:
+                    lets_through = detail
+            if lets_through is not None and not excluded:
+                obs.append(bad('WNOT-L', key, 'the binding power of the token at the cursor is looked up behind %s, which also accepts the `not` of `x not OP y`: for `not` the lookup answers "no infix operator", so the right operand is not extended over `not OP` (`true && 3 not in [3]` groups as not((true && 3) in [3]))'
+                               % (lets_through.rdef or lets_through.callee or '?').split('::')[-1], c.where(), body=b.name, bb=c.bb))
+            else:
+                obs.append(ok('WNOT-L', key, 'the lookup of the current token\'s binding power is not reached through a guard that lets `not` through' + (' (the false edge of the not-test dominates it)' if excluded else ''), c.where()))
+    if n == 0:
+        obs.append(assumed('WNOT-L', 'WNOT-L|none', 'no key-less binding-power lookup for the current token in the parser: not decided'))
+    return obs
+
+
+def bool_source_truth(b, sb, target_bb):
+    """the truth value of the predicate call deciding switch sb on the edge that dominates target_bb (None if no single
+    edge dominates or the switch is not on a plain (possibly negated) call result)"""
+    from r_panic import bool_source
+    t = b.blocks[sb]['term']
+    src = bool_source(b, t['discr'])
+    if src is None:
+        return None
+    tc, parity = src
+    listed = [v for v, _ in t['targets']]
+    for v, x in switch_edges(b, sb):
+        if not edge_dominates(b, sb, x, target_bb):
+            continue
+        if v == 'otherwise':
+            tv = 1 if listed == [0] else 0 if listed == [1] else None
+        else:
+            tv = 1 if v != 0 else 0
+        if tv is not None:
+            return tv ^ parity
+    return None
 
 
 def rule_wtern_right(roles):
@@ -502,6 +646,22 @@ def _reaches_registry(prog, uid):
     return False
 
 
+def _switch_on_current_token(roles, b, sb):
+    """the switch in sb discriminates a value of the token type that is read from the parser's own state (the current
+    token), not anything built from what was parsed before"""
+    from r_parse import TokenFacts
+    t = b.blocks[sb]['term']
+    l = op_local(t['discr'])
+    defs = defuse(b).defs.get(l, []) if l is not None else []
+    if len(defs) != 1 or defs[0][2] != 'assign' or defs[0][3]['k'] != 'discr':
+        return False
+    pl = defs[0][3]['pl']
+    if not roles.token_adt or not re.sub(r"<.*$", '', pl.get('ty') or '').endswith(roles.token_adt) or pl['p']:
+        return False
+    tf = TokenFacts(roles, b)
+    return bool(tf._self_view({'k': 'copy', 'pl': {'l': pl['l'], 'p': [], 'ty': pl.get('ty')}}))
+
+
 def rule_wpostfix(roles):
     """(1) the operand of a prefix operator is parsed by the body that attaches postfix operators
     (postfix binds tighter than prefix); (2) whether a postfix operator is attached depends only on
@@ -523,6 +683,12 @@ def rule_wpostfix(roles):
             tails = [c for c in b.live_calls if c.ruid in fam and c.dest['l'] == 0 and not c.dest['p']]
             if tails and len([c for c in b.live_calls if c.ruid in {p.id for p in roles.parse_bodies}]) == len(tails):
                 fam.add(b.id); changed = True
+            elif tails and b.id not in post_ids:
+                # `let operand = self.parse_token()?; self.parse_postfix(operand)`: the operand is parsed here and handed to
+                # the attaching body, whose result is returned as is — no success return avoids that hand-over
+                import r_order
+                if not r_order._ok_return_reachable(b, 0, {c.bb for c in tails}):
+                    fam.add(b.id); changed = True
     for b, bb, rv in builders(roles, 'Unary'):
         key = 'WPOSTFIX|prefix-operand|%s' % b.name
         o = single_origin(trace_operand(b, rv['ops'][1], through_calls=set(TRANSPARENT_CALLS)))
@@ -542,6 +708,8 @@ def rule_wpostfix(roles):
             if kind == 'pred' and detail.ruid is not None and _reaches_registry(prog, detail.ruid):
                 n_pred += 1
                 continue
+            if kind == 'enum' and _switch_on_current_token(roles, b, sb):
+                continue        # `match self.cur_tok() { Token::Operator(op, _) if is_postfix_op(op) => .. }`: the kind of the *current token*
             extra.append('bb%d: %s %s' % (sb, kind, (detail.rdef or detail.callee) if kind == 'pred' else (detail if isinstance(detail, str) else '')))
         if extra:
             obs.append(bad('WPOSTFIX', key, 'attaching a postfix operator also depends on %s: what precedes the operator (e.g. a parenthesised operand) changes the parse' % '; '.join(extra), b.where(bb), body=b.name, bb=bb))
@@ -554,6 +722,9 @@ def rule_wpostfix(roles):
         import r_order
         tests = {sb for sb, kind, detail in gates_of(b, bb) if kind == 'pred' and detail.ruid is not None and _reaches_registry(prog, detail.ruid)}
         k2 = 'WPOSTFIX|gate|all-primaries|%s' % b.name
+        if tests:
+            # the test may be composite: "the current token is an operator" (switch on its kind) and "that operator is a registered postfix operator"
+            tests |= {sb for sb, kind, detail in gates_of(b, bb) if kind == 'enum' and _switch_on_current_token(roles, b, sb)}
         if tests:
             if r_order._ok_return_reachable(b, 0, tests):
                 obs.append(bad('WPOSTFIX', k2, 'the body that attaches postfix operators can return a primary without testing for a postfix operator: that form of operand (e.g. a parenthesised one) cannot be followed by one, `(x)++` and `x++` differ', b.where(bb), body=b.name, bb=bb))
